@@ -47,10 +47,15 @@ CONSTANTS
     Family,       \* "all" | "relax" | "accum" | "looserel" | "slowaccum"  (which cases Init draws from), or
                   \* "file": cases proposed by the harness in the JSON file IOEnv.CASE_FILE (oracle mode)
     Tier,         \* "quick" | "thorough"  (size of the grid)
+    Reporter,     \* "contract" | "earlier": what get_result reports after a failed search on a simulator that
+                  \* already holds results ("earlier" = hand back the earlier results: must be refuted by TLC)
     EmitOn
 
-VARIABLES cs, s, status, aliased
-vars == <<cs, s, status, aliased>>
+VARIABLES cs, s, status, aliased, todo, held, off
+vars == <<cs, s, status, aliased, todo, held, off>>
+\* todo : what still happens on this simulator BEFORE the steady-state search (the case's history)
+\* held : "none" | "rows" -- does the simulator hold results of an earlier successful simulation
+\* off  : number of 100-unit steps the integrator has already advanced when the search starts
 
 Abs(x) == IF x < 0 THEN 0 - x ELSE x
 Pow2(k) == 2 ^ k
@@ -83,7 +88,12 @@ SumSq(v) == FoldSet(LAMBDA i, acc : acc + v[i] * v[i], 0, DOMAIN v)
 (***************************************************************************)
 Case(net, kind, m, m2, ystar, dev, c, td, rel, user) ==
     [net |-> net, kind |-> kind, m |-> m, m2 |-> m2, ystar |-> ystar, dev |-> dev, c |-> c,
-     td |-> td, rel |-> rel, user |-> user, u |-> 0]
+     td |-> td, rel |-> rel, user |-> user, u |-> 0, prior |-> "none"]
+\* the same case on a simulator with a history:  "sim"      : simulate(100) succeeded before the search (the search
+\*                                                             continues from that state; its results stay held)
+\*                                               "simclear" : simulate(100), then clear_results (fresh again)
+WithPrior(c, p) == [c EXCEPT !.prior = p]
+PriorOps(p) == CASE p = "none" -> <<>> [] p = "sim" -> <<"simulate">> [] p = "simclear" -> <<"simulate", "clear">>
 \* the same network with every concentration divided by 2^u (small concentrations: the absolute and the relative
 \* criterion then differ in strictness the other way round)
 Scaled(c, u) == [c EXCEPT !.u = u]
@@ -123,7 +133,9 @@ Cycle2 ==
 
 Unscaled   == {c \in Pool1 \cup Pools2 \cup Chain2 \cup Cycle2 :
                   \A i \in DOMAIN c.ystar : c.ystar[i] + c.dev[i] >= 0}
+Histories(S) == {WithPrior(c, p) : c \in {d \in S : ~d.user /\ d.u = 0}, p \in {"sim", "simclear"}}
 RelaxCases == Unscaled \cup {Scaled(c, 6) : c \in {d \in Unscaled : d.net \in {"pool1", "cycle2"}}}
+              \cup Histories({c \in Unscaled : c.net \in {"pool1", "cycle2"} /\ c.td # 1024})
 
 \* accumulation: the relative criterion is only meaningful for tolerances below 1 / MaxSteps (see LooseRel)
 Const1 ==
@@ -139,7 +151,7 @@ Grow1 ==
 AccumAll   == LET A == Const1 \cup Feed2 \cup Grow1
               IN A \cup {Scaled(c, 6) : c \in {d \in A : d.net = "const1" /\ d.td >= 1024}}
 LooseRel   == {c \in AccumAll : c.rel /\ c.kind = "lin" /\ c.td < MaxSteps}
-AccumCases == AccumAll \ LooseRel
+AccumCases == LET A == AccumAll \ LooseRel IN A \cup Histories(A)
 \* accumulation by less than the tolerance per loop step (here 2^-8 per step against 1/128)
 SlowAccum  == {Scaled(c, 8) : c \in {d \in Const1 : ~d.rel /\ d.td = 128}}
 
@@ -212,52 +224,78 @@ Init ==
     /\ s = 0
     /\ status = "run"
     /\ aliased = FALSE
+    /\ todo = PriorOps(cs.prior)
+    /\ held = "none"
+    /\ off = 0
+
+\* the history before the search: an ordinary simulation over one step length succeeds (these networks have
+\* global solutions), its rows are held and the integrator stands at its end; clear_results forgets both
+Before ==
+    /\ todo # <<>>
+    /\ IF Head(todo) = "simulate" THEN held' = "rows" /\ off' = off + 1
+                                  ELSE held' = "none" /\ off' = 0
+    /\ todo' = Tail(todo)
+    /\ UNCHANGED <<cs, s, status, aliased>>
+
+\* the state the loop is in after s of its own steps is the network's state after P = s + off steps
 
 \* while y1 aliases y2 the difference is identically zero: 0 < tol, and 0 / y1_i = 0 unless y1_i = 0 (nan)
-Can  == IF aliased THEN (cs.rel => \A i \in DOMAIN cs.ystar : ~Y1Zero(cs, s + 1, i)) ELSE CanDeclare(cs, s)
-Must == IF aliased THEN (cs.rel => \A i \in DOMAIN cs.ystar : ~Y1Zero(cs, s + 1, i)) ELSE MustDeclare(cs, s)
+P == s + off
+Can  == IF aliased THEN (cs.rel => \A i \in DOMAIN cs.ystar : ~Y1Zero(cs, P + 1, i)) ELSE CanDeclare(cs, P)
+Must == IF aliased THEN (cs.rel => \A i \in DOMAIN cs.ystar : ~Y1Zero(cs, P + 1, i)) ELSE MustDeclare(cs, P)
 
 Declare ==
+    /\ todo = <<>>
     /\ status = "run" /\ s < MaxSteps /\ Can
     /\ s' = s + 1
     /\ status' = "ok"
-    /\ UNCHANGED <<cs, aliased>>
+    /\ UNCHANGED <<cs, aliased, todo, held, off>>
 
 Continue ==
+    /\ todo = <<>>
     /\ status = "run" /\ s < MaxSteps /\ ~Must
     /\ s' = s + 1
     /\ status' = IF s + 1 = MaxSteps THEN "fail" ELSE "run"
     /\ aliased' = (Loop = "alias")
-    /\ UNCHANGED cs
+    /\ UNCHANGED <<cs, todo, held, off>>
 
-Next == Declare \/ Continue
+Next == Before \/ Declare \/ Continue
 Done == status # "run"
 
 (***************************************************************************)
 (* Properties                                                              *)
 (***************************************************************************)
-\* |y_i - y*_i| = |dev_i| 2^-(m s + u) after s steps
+\* |y_i - y*_i| = |dev_i| 2^-(m P + u) after P = s + off steps
 SuccessIsSteady ==
     status = "ok" =>
         /\ cs.kind = "relax"
         /\ \A i \in DOMAIN cs.ystar :
               IF cs.rel
               THEN \* (2^m - 1) |dev_i| 2^-(m s) < tol |y1_i|,  y1 = the state after s - 1 steps  (same inequality as the guard)
-                   RelLess(cs, s - 1, i, 1)
+                   RelLess(cs, P - 1, i, 1)
               ELSE \* (2^m - 1) |dev_i| 2^-(m s + u) < tol
-                   DyLess(Abs(cs.dev[i]) * (Pow2(cs.m) - 1) * cs.td, cs.m * s + cs.u, 1, 0)
+                   DyLess(Abs(cs.dev[i]) * (Pow2(cs.m) - 1) * cs.td, cs.m * P + cs.u, 1, 0)
 
 AccumFails     == cs.kind \in {"lin", "grow"} => status # "ok"
 RelaxConverges == cs.kind = "relax" => status # "fail" /\ s <= 40
 GridIsOK       == GridOK(cs)
 
 \* what the caller sees
-GetResult == IF status = "ok" THEN [k |-> "value", steps |-> s] ELSE [k |-> "error", steps |-> s]
+\* what the caller sees.  A successful search appends the steady state to whatever the simulator holds, so the
+\* LAST row of the result is the steady state (the network's state after P steps).  A failed search must give a
+\* failure value WHATEVER happened on this simulator before; the wrong reporter hands back the earlier rows.
+GetResult ==
+    IF status = "ok" THEN [k |-> "value", last |-> P, earlier |-> held = "rows"]
+    ELSE IF Reporter = "earlier" /\ held = "rows" THEN [k |-> "value", last |-> off, earlier |-> TRUE]
+    ELSE [k |-> "error", last |-> 0, earlier |-> FALSE]
+\* the scan worker builds a fresh simulator for every row: no history
 ScanRow   == IF status = "ok" THEN "state" ELSE "nan"
 Plumbing ==
     Done => /\ (GetResult.k = "value") = (status = "ok")
+            /\ status = "ok" => GetResult.last = P /\ GetResult.earlier = (cs.prior = "sim")
             /\ (ScanRow = "nan") = (status = "fail")
             /\ status = "fail" => s = MaxSteps
+            /\ todo = <<>> /\ off = (IF cs.prior = "sim" THEN 1 ELSE 0)
 
 \* a verdict that would flip if the tolerance were 10 times larger sits on a threshold (numerically fragile):
 \* in this family only accumulation judged by the relative norm with 1 / tol within a factor 10 of MaxSteps
@@ -266,6 +304,6 @@ Fragile(c) == \/ c.kind = "lin" /\ c.rel /\ c.td < 10 * (MaxSteps + 32)
               \/ c.kind = "lin" /\ ~c.rel /\ NormLo(c) * c.td < 10 * Pow2(c.u)
 
 Emit == (EmitOn /\ Done) =>
-    PrintT("@J@" \o ToJson([case |-> cs, outcome |-> status, steps |-> s, result |-> GetResult.k, scan |-> ScanRow,
+    PrintT("@J@" \o ToJson([case |-> cs, outcome |-> status, steps |-> s, last |-> P, result |-> GetResult.k, scan |-> ScanRow,
                              fragile |-> Fragile(cs)]) \o "@E@")
 =============================================================================
